@@ -400,7 +400,7 @@ func c14CLI(c *Ctx, n int, thorough bool) error {
 			}
 			c.ev.MarkDistinct(fmt.Sprintf("cli|%x|%s", seed, strings.Join(ts, "+")))
 			if o.Exit != 0 {
-				c.candidate14CLI(i, prog, w, ts, "*", []string{fmt.Sprintf("exit %d with targets %v although every target alone exits 0", o.Exit, ts)})
+				c.candidate14CLI(i, prog, w, ts, "*", "", []string{fmt.Sprintf("exit %d with targets %v although every target alone exits 0", o.Exit, ts)})
 				continue
 			}
 			for _, t := range ts {
@@ -423,7 +423,45 @@ func c14CLI(c *Ctx, n int, thorough bool) error {
 					}
 				}
 				if len(diffs) > 0 {
-					c.candidate14CLI(i, prog, w, ts, t, diffs)
+					c.candidate14CLI(i, prog, w, ts, t, "", diffs)
+				}
+			}
+		}
+		// flat and nested layouts: several targets share one output root, or
+		// one target's root lies inside another's
+		for _, layout := range []string{"shared-root", "nested-roots"} {
+			sets := [][]string{AllTargets}
+			for k := 0; k < 3; k++ {
+				sets = append(sets, randomHistorySorted(r))
+			}
+			if thorough {
+				for k := 0; k < 8; k++ {
+					sets = append(sets, randomHistory(r))
+				}
+			}
+			for _, ts := range sets {
+				dirs := layoutDirs(layout, ts)
+				w := &CLIWorld{Argv: compileArgvDirs(ts, dirs, long, sub, abs), Disk0: disk, Sched: s0()}
+				o, err := c.sc.RunCLI(w)
+				if err != nil {
+					return err
+				}
+				c.ev.AddRecord(&o.Rec)
+				c.ev.Count("cli_worlds", 1)
+				c.ev.Fire("layout_"+layout, 1)
+				c.event(fmt.Sprintf("c14cli|%d|%s|%s", i, layout, strings.Join(ts, "+")), w.Argv, treeSig(o, ""), opSig(o))
+				if o.TimedOut {
+					continue
+				}
+				c.ev.MarkDistinct(fmt.Sprintf("cli|%x|%s|%s", seed, layout, strings.Join(ts, "+")))
+				if o.Exit != 0 {
+					c.candidate14CLI(i, prog, w, ts, "*", layout, []string{fmt.Sprintf("exit %d with targets %v in layout %s although every target alone exits 0", o.Exit, ts, layout)})
+					continue
+				}
+				for _, t := range ts {
+					if d := layoutDiff(alone, o, dirs, ts, t); len(d) > 0 {
+						c.candidate14CLI(i, prog, w, ts, t, layout, d)
+					}
 				}
 			}
 		}
@@ -431,7 +469,22 @@ func c14CLI(c *Ctx, n int, thorough bool) error {
 	})
 }
 
-func (c *Ctx) candidate14CLI(caseIdx int, prog *Prog, w *CLIWorld, ts []string, victim string, diffs []string) {
+// randomHistorySorted: a random subset (>= 2 targets) in the CLI's fixed order.
+func randomHistorySorted(r *Rng) []string {
+	for {
+		var ts []string
+		for _, t := range AllTargets {
+			if r.Chance(1, 2) {
+				ts = append(ts, t)
+			}
+		}
+		if len(ts) >= 2 {
+			return ts
+		}
+	}
+}
+
+func (c *Ctx) candidate14CLI(caseIdx int, prog *Prog, w *CLIWorld, ts []string, victim string, layout string, diffs []string) {
 	c.mu.Lock()
 	c.candidates++
 	for s := range c.sigSeen {
@@ -440,7 +493,7 @@ func (c *Ctx) candidate14CLI(caseIdx int, prog *Prog, w *CLIWorld, ts []string, 
 			return // the library-level report for the same victim covers it
 		}
 	}
-	coarse := "C14cli|" + victim
+	coarse := "C14cli|" + victim + "|" + layout
 	if c.sigSeen["coarse:"+coarse] || c.processed >= 40 {
 		c.mu.Unlock()
 		return
@@ -456,7 +509,7 @@ func (c *Ctx) candidate14CLI(caseIdx int, prog *Prog, w *CLIWorld, ts []string, 
 	fails := func(p *Prog, set []string) (bool, []string, *CLIWorld, *CLIWorld) {
 		disk := []DiskEntry{{Path: "in.dsl", Kind: "file", Data: []byte(p.Render())}}
 		wa := &CLIWorld{Argv: compileArgv([]string{victim}, long, sub, abs), Disk0: disk, Sched: s0()}
-		wb := &CLIWorld{Argv: compileArgv(set, long, sub, abs), Disk0: disk, Sched: s0()}
+		wb := &CLIWorld{Argv: compileArgvDirs(set, layoutDirs(layout, set), long, sub, abs), Disk0: disk, Sched: s0()}
 		if victim == "*" {
 			ob, err := c.sc.RunCLI(wb)
 			if err != nil || ob.TimedOut {
@@ -478,6 +531,21 @@ func (c *Ctx) candidate14CLI(caseIdx int, prog *Prog, w *CLIWorld, ts []string, 
 		ob, err := c.sc.RunCLI(wb)
 		if err != nil || ob.TimedOut {
 			return false, nil, wa, wb
+		}
+		if layout != "" {
+			al := map[string]*CLIOutcome{victim: oa}
+			for _, u := range set {
+				if u == victim {
+					continue
+				}
+				ou, err := c.sc.RunCLI(&CLIWorld{Argv: compileArgv([]string{u}, long, sub, abs), Disk0: disk, Sched: s0()})
+				if err != nil || ou.TimedOut {
+					return false, nil, wa, wb
+				}
+				al[u] = ou
+			}
+			d := layoutDiff(al, ob, layoutDirs(layout, set), set, victim)
+			return len(d) > 0, d, wa, wb
 		}
 		sa, sb := oa.subtree(targetDir[victim]), ob.subtree(targetDir[victim])
 		var d []string
@@ -528,10 +596,19 @@ func (c *Ctx) candidate14CLI(caseIdx int, prog *Prog, w *CLIWorld, ts []string, 
 		l0 = d[0]
 	}
 	sort.Strings(set)
-	rf := &ReplayFile{Property: "C14", Kind: "cli-c14", RunSeed: c.Seed, Case: caseIdx, DSL: small.Render(), Target: victim, CLI: wb, CLIRef: wa,
+	kind := "cli-c14"
+	if layout != "" {
+		kind = "cli-c14-layout"
+	}
+	rf := &ReplayFile{Property: "C14", Kind: kind, RunSeed: c.Seed, Case: caseIdx, DSL: small.Render(), Target: victim, History: set, CLI: wb, CLIRef: wa,
+		Expect: map[string]any{"layout": layout},
 		Original:  map[string]any{"packets": len(prog.Pkts), "fields": prog.fieldCount(), "targets": ts},
 		Minimised: map[string]any{"packets": len(small.Pkts), "fields": small.fieldCount(), "targets": set, "shrink_evaluations": used}}
-	c.report("C14|cli|"+victim+"|with:"+strings.Join(set, "+"), fmt.Sprintf("CLI: the tree written for target %s differs between requesting it alone and requesting %v: %q vs %q", victim, set, clip(l0, 100), clip(l1, 100)), d, rf)
+	lay := ""
+	if layout != "" {
+		lay = " in layout " + layout
+	}
+	c.report("C14|cli|"+victim+"|with:"+strings.Join(set, "+")+"|"+layout, fmt.Sprintf("CLI: the tree written for target %s differs between requesting it alone and requesting %v%s: %q vs %q", victim, set, lay, clip(l0, 100), clip(l1, 100)), d, rf)
 }
 
 const c14Rule = "Seeded generation of well-formed PacketDSL programs; per program one reference world (each target alone on a fresh parse) and histories = ordered subsets of the six generators applied to ONE parsed model (all 1956 for the first programs, CLI order + all 30 ordered pairs + 30 random histories for the rest), map order and clock pinned; plus CLI worlds (one OS process per subset of output flags). A case is distinct by (program, history) and non-trivial when the history has >= 2 steps (only then can one generator interfere with another)."
